@@ -26,9 +26,11 @@ verus! {
     requires
         what.start <= what.end < source_mapping.len(),
         source_mapping.len() <= 70000,
+        mono(source_mapping@),
     ensures
         final(target)@ == old(target)@ + with@,
-        final(target_mapping)@ == old(target_mapping)@ + repl_map(source_mapping@, what.start as int, what.end as int, with.spec_bytes().len() as int),
+        exists|r: Seq<usize>| #[trigger] repl_ok(source_mapping@, what.start as int, what.end as int, with.spec_bytes().len() as int, r)
+            && final(target_mapping)@ == old(target_mapping)@ + r,
         delta == with.spec_bytes().len() - (what.end - what.start),
 //@  atstart
     broadcast use axiom_str_len_fits;
@@ -36,15 +38,34 @@ verus! {
     let ghost tm0 = target_mapping@;
     proof { assert(old(target)@ + Seq::<char>::empty() =~= old(target)@); }
 //@  before if with.is_empty() {
-    proof { if wl == 0 { lemma_empty_str(with); assert(old(target)@ + with@ =~= old(target)@); assert(tm0 + Seq::<usize>::empty() =~= tm0); } }
+    proof { if wl == 0 { lemma_empty_str(with); assert(old(target)@ + with@ =~= old(target)@); assert(tm0 + Seq::<usize>::empty() =~= tm0);
+            assert(repl_ok(source_mapping@, what.start as int, what.end as int, wl, Seq::<usize>::empty())); } }
 //@  rw R7 1
 //@  loop 1
         invariant
             wl == with.spec_bytes().len(), wl > 0, __end__ == wl, 1 <= __it__ <= wl,
             pos == source_mapping@[what.end as int],
-            target_mapping@ == tm0 + seq![source_mapping@[what.start as int]]
-              + Seq::new((__it__ - 1) as nat, |i: int| source_mapping@[what.end as int]),
+            source_mapping@[what.start as int] <= source_mapping@[what.end as int],
+            target_mapping@.len() == tm0.len() + __it__,
+            target_mapping@.subrange(0, tm0.len() as int) == tm0,
+            repl_ok(source_mapping@, what.start as int, what.end as int, __it__ as int, target_mapping@.subrange(tm0.len() as int, target_mapping@.len() as int)),
         decreases wl - __it__
+//@  before target_mapping.push(pos);
+        let ghost r0 = target_mapping@.subrange(tm0.len() as int, target_mapping@.len() as int);
+//@  after target_mapping.push(pos);
+        proof {
+            let r1 = target_mapping@.subrange(tm0.len() as int, target_mapping@.len() as int);
+            assert(r1 =~= r0.push(pos));
+            assert(target_mapping@.subrange(0, tm0.len() as int) =~= tm0);
+            assert forall|i: int, j: int| 0 <= i <= j < r1.len() implies r1[i] <= r1[j] by {
+                if j < r0.len() { assert(r1[i] == r0[i] && r1[j] == r0[j]); } else if i < r0.len() { assert(r1[i] == r0[i]); }
+            }
+        }
+//@  before with.len() as isize - what.len() as isize
+    proof {
+        let r = target_mapping@.subrange(tm0.len() as int, target_mapping@.len() as int);
+        assert(target_mapping@ =~= tm0 + r);
+    }
 //@end
 
 //@extract sudachi/src/input_text/buffer/edit.rs :: fn resolve_edits
@@ -52,17 +73,17 @@ verus! {
 //@  | for edit in edits\.drain\(\.\.\) \{
 //@  > let mut __d = drain_all(edits); while __d.has_next() { let edit = __d.take_next();
 //@  rw R13' 1 custom
-//@  | &source\[start\.\.edit\.what\.start\]
-//@  > str_slice(source, start, edit.what.start)
+//@  | &source\[([^\]\.]+(?:\.[a-z_]+)*)\.\.([^\]\.]+(?:\.[a-z_]+)*)\]
+//@  > str_slice(source, \1, \2)
 //@  rw R13' 1 custom
-//@  | &source\[start\.\.\]
-//@  > str_slice(source, start, source.len())
+//@  | &source\[([^\]\.]+(?:\.[a-z_]+)*)\.\.\]
+//@  > str_slice(source, \1, source.len())
 //@  rw R8 1 custom
-//@  | target_mapping\.extend\(source_mapping\[start\.\.edit\.what\.start\]\.iter\(\)\)
-//@  > vec_extend_slice(target_mapping, source_mapping, start, edit.what.start)
+//@  | target_mapping\.extend\(source_mapping\[([^\]\.]+(?:\.[a-z_]+)*)\.\.([^\]\.]+(?:\.[a-z_]+)*)\]\.iter\(\)\)
+//@  > vec_extend_slice(target_mapping, source_mapping, \1, \2)
 //@  rw R8 1 custom
-//@  | target_mapping\.extend\(source_mapping\[start\.\.\]\.iter\(\)\)
-//@  > vec_extend_slice(target_mapping, source_mapping, start, source_mapping.len())
+//@  | target_mapping\.extend\(source_mapping\[([^\]\.]+(?:\.[a-z_]+)*)\.\.\]\.iter\(\)\)
+//@  > vec_extend_slice(target_mapping, source_mapping, \1, source_mapping.len())
 //@  rw R13 1 custom
 //@  | c\.encode_utf8\(&mut \[0; 4\]\)
 //@  > char_utf8(c).as_str()
@@ -128,7 +149,11 @@ verus! {
             assert(target@ == tg_b + w);
             encode_utf8_concat(tg_b, w);
             assert(encode_utf8(target@) == out_bytes(src, e0, k + 1));
-            lemma_map_step(src, sm, e0, k, tm_a, target_mapping@);
+            let seg = sm.subrange(prev_end(e0, k), e0[k].what.start as int);
+            let wl = tgt_bytes(e0[k].with).len() as int;
+            assert(exists|r: Seq<usize>| #[trigger] repl_ok(sm, e0[k].what.start as int, e0[k].what.end as int, wl, r) && target_mapping@ == tm_a + seg + r);
+            let r = choose|r: Seq<usize>| #[trigger] repl_ok(sm, e0[k].what.start as int, e0[k].what.end as int, wl, r) && target_mapping@ == tm_a + seg + r;
+            lemma_map_step(src, sm, e0, k, tm_a, r, target_mapping@);
             assert(cur_len == len_after(src, e0, k + 1));
         }
 //@  before return cur_len as usize;
